@@ -9,7 +9,7 @@ use crate::space::*;
 use crate::tt::TT;
 use ddnnife::Ddnnf;
 
-fn parse_sample(reply: &str) -> Option<Vec<Vec<i32>>> {
+pub fn parse_sample(reply: &str) -> Option<Vec<Vec<i32>>> {
     if reply == "true" || reply == "false" || reply.is_empty() { return Some(vec![]); }
     let mut out = Vec::new();
     for line in reply.split(|c| c == '\n' || c == ';') {
@@ -22,7 +22,7 @@ fn parse_sample(reply: &str) -> Option<Vec<Vec<i32>>> {
 }
 
 /// first violation of the property by `sample`, judged by the truth table
-fn judge(tt: &TT, t: usize, sample: &[Vec<i32>]) -> Option<String> {
+pub fn judge(tt: &TT, t: usize, sample: &[Vec<i32>]) -> Option<String> {
     for c in sample {
         match tt.index_of(&{ let mut s = c.clone(); s.sort_by_key(|l| l.abs()); s }) {
             Some(k) if tt.bits[k] => {}
@@ -119,5 +119,6 @@ pub fn c09(a: &Args) {
             } }
         }
     }
-    out.finish("every model of the C01 space (n <= 8) x t in 1..5 x {plain, fitness vectors with negative, zero, tied and fractional values} x 3 (quick) / 5 (thorough) runs each (every run differs in hash iteration order): stream `t-wise l t [f ..]`; every configuration must be a complete model and every t-interaction contained in a model must be contained in a configuration (brute force over the truth table of the input text); the same sample is judged by the Lean checker TWise.check (proved sound) on the exported node array; corpus models with <= 60 features for t = 1, 2 judged by count / sat");
+    crate::cli_props::cli_pass(a, &mut out, &mut rng, &["t-wise"]);
+    out.finish("(+ CLI pass: the rebuilt binary's `t-wise` on a sample of the models, judged by the same oracles) every model of the C01 space (n <= 8) x t in 1..5 x {plain, fitness vectors with negative, zero, tied and fractional values} x 3 (quick) / 5 (thorough) runs each (every run differs in hash iteration order): stream `t-wise l t [f ..]`; every configuration must be a complete model and every t-interaction contained in a model must be contained in a configuration (brute force over the truth table of the input text); the same sample is judged by the Lean checker TWise.check (proved sound) on the exported node array; corpus models with <= 60 features for t = 1, 2 judged by count / sat");
 }
